@@ -12,6 +12,7 @@ mod c04;
 mod c05;
 mod c06;
 mod c07;
+mod c11;
 mod c12;
 mod c13;
 mod c16;
@@ -32,6 +33,7 @@ use std::time::Instant;
 fn dispatch_for(id: &str) -> Option<fn(&str, &serde_json::Value) -> Option<Outcome>> {
     Some(match id {
         "C04" => c04::dispatch,
+        "C11" => c11::dispatch,
         "C12" => c12::dispatch,
         "C17" => c17::dispatch,
         "C13" => c13::dispatch,
@@ -49,6 +51,7 @@ fn dispatch_for(id: &str) -> Option<fn(&str, &serde_json::Value) -> Option<Outco
 fn run_check(ctx: &Ctx) -> i32 {
     match ctx.property.as_str() {
         "C04" => c04::run(ctx),
+        "C11" => c11::run(ctx),
         "C12" => c12::run(ctx),
         "C17" => c17::run(ctx),
         "C13" => c13::run(ctx),
